@@ -48,6 +48,7 @@ def check(rep, ctx):
     R_V = rep.rule("C11-varint", "varint reader/writer bit-level structure, minimality, reader-after-writer identity, zig-zag", floor=7)
     R_L = rep.rule("C11-limits", "length-limited writers raise instead of wrapping", floor=5)
     R_E = rep.rule("C11-time", "time codecs: exact conversions (E6)", floor=6)
+    limits: list[str] = []
     R_N = rep.rule("C11-census", "every public function of readers/writers was examined", floor=60)
     try:
         pm, sm = I.module("kio.serial._parse"), I.module("kio.serial._serialize")
@@ -93,6 +94,9 @@ def check(rep, ctx):
                         vt = UnionV((t, None)) if (opt or kt == "uuid") else t
                         d = neutral_w(export_desc(D.writer_desc(v, vt)))
                         diffs = cmp_writer(d, spec, row)
+                    if d.get("k") == "opaque" or (d.get("item") or {}).get("k") == "opaque":
+                        limits.append(f"{v.ref} (selected for {row}) not understood: {d.get('reason')}")
+                        continue
                     rep.check(R_T, not diffs, construct=gfn.ref, stmt=f"case {row}: return {v.ref.split(':')[1]}",
                               message="; ".join(diffs), file=src.rel, line=gfn.node.lineno, instance=f"{side}|{row}",
                               details={"selected": v.ref, "grammar": d, "spec": spec})
@@ -124,9 +128,8 @@ def check(rep, ctx):
         for name, rec in sorted(table.items()):
             rep.count(R_N, 1, instance=f"{side}.{name}")
             d = rec.get("desc")
-            if d is not None and d.get("k") == "opaque":
-                rep.check(R_F, False, construct=f"kio.serial.{side}:{name}", stmt=name, message=f"function not understood: {d.get('reason')}",
-                          file=file, line=rec["line"])
+            if d is not None and (d.get("k") == "opaque" or (d.get("item") or {}).get("k") == "opaque"):
+                limits.append(f"kio.serial.{side}.{name} not understood: {d.get('reason') or (d.get('item') or {}).get('reason')}")
                 continue
             if name in specs:
                 n = neut(d)
@@ -140,6 +143,12 @@ def check(rep, ctx):
                 rep.check(R_L, ok, construct=f"kio.serial.writers:{name}", stmt=f"{name}: length guard {guards}",
                           message="a legacy (fixed-width) length is written without a guard that raises for an over-long value",
                           file=file, line=rec["line"])
+                from ..grammar import max_len_accepted, length_capacity
+                cap, mx = length_capacity(d["prefix"], d.get("bias", 0)), max_len_accepted(guards)
+                rep.check(R_L, mx is None or cap is None or mx >= cap, construct=f"kio.serial.writers:{name}",
+                          stmt=f"{name}: accepts lengths up to {mx}, {d['prefix']['fmt']} carries {cap}",
+                          message=f"the writer rejects lengths above {mx} although its {d['prefix']['fmt']} prefix carries up to {cap}",
+                          file=file, line=rec["line"], instance=f"{name}|domain")
             if d is not None and d.get("k") == "scalar":
                 role = next((kt for kt in TIME if name.endswith(kt) or name.endswith(kt.replace("_i", "_i"))), None)
                 for kt, (kind, bits) in TIME.items():
@@ -180,6 +189,8 @@ def check(rep, ctx):
             pr.append(f"{rname} reads at most {rd['prefix'].get('max')} bytes, expected {want_max}")
         rep.check(R_V, not pr, construct=f"kio.serial.writers:{wname}", stmt=f"zig-zag {bits}: {timeflow.show(wd['conv'])} / {timeflow.show(rd['conv'])}",
                   message="; ".join(pr), file=wfile, line=prims["writers"][wname]["line"], instance=f"zigzag|{bits}")
+    if limits and not rep.findings:
+        raise AnalysisError(limits[0] + (f" (+{len(limits) - 1} more)" if len(limits) > 1 else ""))
     rep.sample({"rule": "C11-varint", "3-byte reader path value": ratoms[sorted(ratoms)[0]]["paths"][2]["bv"].show()})
     rep.extra.update(public_readers=len(prims["readers"]), public_writers=len(prims["writers"]), table_rows=len(kts) * 4)
     rep.trusted_base += ["struct format table", "values.BV: GF(2)-affine bit-vector domain (exact for and/or/xor with constants, constant shifts, carry-free add)"]
